@@ -329,6 +329,21 @@ def gen_cases(tier, rng):
                 for cls in ("nel", "lsep", "c0", "del", "tab", "cr"):
                     for pos in (509, 510, 511, 512):
                         add(enc, "1.1", ctx, cls, pos - header_len(enc, "1.1", ctx), 10, pos=pos)
+    # (a') ordered PAIRS of classes in a cdata-section element: what is written after a character that had to leave the section (a
+    # reference) re-opens the section - a supplementary character, a bracket, another reference - and the reverse orders
+    firsts = ["cr", "nel", "lsep", "c0", "del", "ext", "bmp", "latin1", "cdend", "rsb"]
+    seconds = ["supp", "bmp", "rsb", "cdend", "cr", "plain", "ext"]
+    for enc in ENCODINGS:
+        for ver in VERSIONS:
+            for c1 in firsts:
+                for c2 in seconds:
+                    if quick and enc in ("UTF-8", "UTF-16", "US-ASCII") and c2 not in ("supp", "rsb"):
+                        continue
+                    body = CLASSES[c1] + CLASSES[c2]
+                    cases.append({"enc": enc, "ver": ver, "decl": True, "which": ["new", "legacy"], "script": place("D", [X] + body + [X]),
+                                  "meta": {"ctx": "D", "cls": c1 + "+" + c2, "pos": None, "post": 1}})
+                    cases.append({"enc": enc, "ver": ver, "decl": True, "which": ["new"], "script": place("D", body),
+                                  "meta": {"ctx": "D", "cls": c1 + "+" + c2, "pos": None, "post": 0}})
     # (b') strings that are handed to the writer in ONE call and are longer than its buffer (names of elements / attributes / PI targets
     # are; text is written unit by unit): every encoding - the writers differ in how they flush before writing through
     for enc in ENCODINGS:
